@@ -34,7 +34,7 @@ var floors = map[string][]floor{
 	"C15": {{"operations_on_recycled_parser", 500, 0}, {"operations_on_recycled_point", 200, 0}},
 	"C16": {{"set:in_flight_pairs", 8, 0}},
 	"C17": {{"positions_compared", 100000, 0}, {"error_positions_checked", 500, 0}, {"set:position_cells", 60, 0}},
-	"C18": {{"compared", 1000, 0.8}, {"set:stale_cells", 300, 0}, {"differential_v1_runs", 200, 0}},
+	"C18": {{"compared", 1000, 0.8}, {"set:stale_cells", 300, 0}, {"differential_v1_runs", 80, 0}},
 	"C19": {{"set:call_cells", 20, 0}},
 	"C20": {{"outputs_compared", 40, 0}, {"runs_expected_to_report_an_error", 5, 0}, {"load_only_runs", 3, 0}},
 }
